@@ -13,6 +13,7 @@ import (
 	"github.com/lni/dragonboat/v4/internal/tan"
 	"github.com/lni/dragonboat/v4/internal/vfs"
 	"github.com/lni/dragonboat/v4/raftio"
+	pb "github.com/lni/dragonboat/v4/raftpb"
 )
 
 // FS is the file system type used by the stores.
@@ -79,4 +80,42 @@ func TanIndexUpdate(entries []IndexEntry, e IndexEntry) []IndexEntry {
 // TanIndexQuery is tan's index.query.
 func TanIndexQuery(entries []IndexEntry, low uint64, high uint64) ([]IndexEntry, bool) {
 	return tan.VerifC09IndexQuery(entries, low, high)
+}
+
+// LogReader wraps the real logdb.LogReader (the raft core's view of a log
+// store) so that the harness can feed ReadRaftState results to the real
+// SetRange and read entries through the real Entries.
+type LogReader struct {
+	lr *logdb.LogReader
+}
+
+type nopCompactor struct{}
+
+func (nopCompactor) Compact(uint64) error { return nil }
+
+// NewLogReader creates a LogReader on top of the specified store.
+func NewLogReader(db raftio.ILogDB, shardID uint64, replicaID uint64) *LogReader {
+	lr := logdb.NewLogReader(shardID, replicaID, db)
+	lr.SetCompactor(nopCompactor{})
+	return &LogReader{lr: lr}
+}
+
+// ApplySnapshot moves the marker to the specified snapshot position.
+func (r *LogReader) ApplySnapshot(index uint64, term uint64) error {
+	return r.lr.ApplySnapshot(pb.Snapshot{Index: index, Term: term})
+}
+
+// SetRange is LogReader.SetRange.
+func (r *LogReader) SetRange(firstIndex uint64, length uint64) {
+	r.lr.SetRange(firstIndex, length)
+}
+
+// GetRange is LogReader.GetRange.
+func (r *LogReader) GetRange() (uint64, uint64) {
+	return r.lr.GetRange()
+}
+
+// Entries is LogReader.Entries.
+func (r *LogReader) Entries(low uint64, high uint64, maxSize uint64) ([]pb.Entry, error) {
+	return r.lr.Entries(low, high, maxSize)
 }
